@@ -12,9 +12,10 @@ def run(ctx):
     pdir, plans = ctx.tlc_plans(fam, "LRU_Gen", "LRU_Gen.cfg", num=ctx.q(250, 3000), depth=14)
     # 3. execute against the real code
     binary = ctx.go_build("c04")
-    ctx.harness(binary, ["-plans", pdir, "-out", ctx.path("seq.ndjson"), "-conc", ctx.path("conc.ndjson"),
+    out = ctx.harness(binary, ["-plans", pdir, "-out", ctx.path("seq.ndjson"), "-conc", ctx.path("conc.ndjson"),
                          "-seed", ctx.seed, "-hist", ctx.q(200, 4000), "-nconc", ctx.q(60, 1500),
-                         "-nwide", ctx.q(40, 800), "-maxops", ctx.q(80, 200)],
+                         "-nwide", ctx.q(40, 800), "-maxops", ctx.q(80, 200),
+                         "-nrace", ctx.q(100000, 1500000), "-nracekeep", ctx.q(5000, 60000)],
                 traces=[ctx.path("seq.ndjson"), ctx.path("conc.ndjson")])
     # 4. validate what the real code did
     seq = ctx.load_traces(ctx.path("seq.ndjson"))
@@ -22,6 +23,10 @@ def run(ctx):
     rj = ctx.validate(fam, "LRU_Trace", "LRU_Trace.cfg", seq, label="sequential", chunk=20000)
     rj += ctx.validate(fam, "LRU_Trace", "LRU_Trace.cfg", conc, label="concurrent", chunk=6000)
     ctx.judge(rj)
+    import re
+    m = re.search(r"race_rounds=(\d+) race_rounds_with_overlap=(\d+)", out)
+    if m:
+        ctx.extra["race_rounds_run"], ctx.extra["race_rounds_with_real_overlap_validated"] = int(m.group(1)), int(m.group(2))
     ctx.extra["plans"] = len(plans)
     ctx.extra["sequential_traces"] = len(seq)
     ctx.extra["concurrent_traces"] = len(conc)
